@@ -7,7 +7,12 @@ def run(ctx):
                cflags=["-I" + os.path.join(vflib.VERIF, "gen"), "-DCERTGEN_REV=\"%s\"" % gh], shards=vflib.NCPU, timeout=7200 if ctx.thorough else 1200)]
     rule = ("Each case = one certificate universe minted by gen/certgen.h (own DER writer, libcrypto signs; RSA-2048 / P-256 / Ed25519 (+P-384) keys per level, "
             "path length 1-5 = root + 0-3 intermediates + leaf) with 0-2 mutation operators at chosen positions (signature corrupted / wrong key / copied from the anchor or the issuer / empty / "
-            "outer!=inner algorithm / wrong family / wrong hash, SHA-1, MD5, issuer DN, expired, not yet valid, unknown critical extension, revoked by an authenticated CRL, issuer not CA, "
+            "outer!=inner algorithm / wrong family / wrong hash, SHA-1, MD5, issuer DN, expired, not yet valid, a validity-window grid (notBefore long ago / a minute ago / in 2 days / in 10 days x notAfter 10 or 2 days ago / "
+            "in a year / after 2049 as GeneralizedTime / RFC 5280's no-expiry value 99991231235959Z, inverted window; inside the window = benign) on leaf and every intermediate, "
+            "RSA signature values that are the issuer's private-key operation on a malformed PKCS#1 v1.5 block (one non-FF padding octet, random padding, block type 02, no 00 separator, garbage after an early separator, "
+            "short padding with DigestInfo||H left-aligned and trailing garbage, garbage inside the DigestInfo parameters), and - below issuers whose RSA public exponent is 3 (key-type letter C, root or intermediate, honest chains "
+            "below them must validate) - signature values forged from the PUBLIC key alone (a cube s^3 < n found with integer and 2-adic cube roots whose image is 00 01 FF FF FF FF <garbage> 00 DigestInfo||H, "
+            "00 01 <random> 00 DigestInfo||H, 00 01 FFx{8,1,0} 00 DigestInfo||H <garbage>, or a DigestInfo with the garbage in its parameters; the harness re-computes value^e mod n with libcrypto to confirm the shape), unknown critical extension, revoked by an authenticated CRL, issuer not CA, "
             "basicConstraints absent, pathLen exceeded, keyUsage without keyCertSign, RSA-512 issuer key, v1 issuer; benign ones that must still validate: unknown non-critical extension, tight pathLen, "
             "CRL signed by a stranger, CRL for another serial, GeneralizedTime, RSA-PSS, SHA-384/512, no AKI/SKI), an anchor set (right root, none, wrong root, wrong root with the right DN, "
             "intermediate as anchor (presented or not), several anchors, leaf / middle intermediate as anchor), root pathLen absent/0/1/2/3, root presented or not, presentation order, and the API "
@@ -16,4 +21,6 @@ def run(ctx):
     return vflib.std_run(ctx, st, "exploration", rule,
         ["the handshake-level consequences (alerts, completion) are C04's", "issuerCerts == NULL is the API's documented self-signed-chain test; its acceptances are recorded, not asserted",
          "name constraints, policy extensions and OCSP are not enabled in this configuration and not generated", "Ed25519-signed CRLs cannot be parsed by psX509ParseCRL, so revocation under Ed25519 issuers is not generated",
-         "keys come from OpenSSL's RNG (not seed-derived); the seed varies names, serials and corrupted bit positions only"], min_nontrivial=800)
+         "keys come from OpenSSL's RNG (not seed-derived); the seed varies names, serials and corrupted bit positions only",
+         "RFC 8017 8.2.2 is the signature-validity rule: a value whose decoded block differs from EMSA-PKCS1-v1_5(H) anywhere is not the issuer's signature (DigestInfo without NULL parameters is not generated: the library accepts it by design)",
+         "certificates in the validity grid that use GeneralizedTime use it for both dates (the generator has one encoding switch per certificate)"], min_nontrivial=800)
